@@ -54,6 +54,27 @@ DESC = {
     'C18-d': '`<| {block}` not hoisted: a panicking block inside an uninvoked wrapper closure never runs', 'C18-e': 'join_async_spawn!: handles awaited in branch order (panic of a later task waits for an earlier pending one)',
     'C19-e': 'sequential macros with lazy_branches(true) build unused thread builders (allocation)',
     'C20-e': 'process-wide memo of "accepted" operands records a rejected one', 'C20-f': 'thread-local memo of valid streams keyed by text only (Expr vs Type)',
+    # round 4
+    'C01-g': 'non-try async macros no longer import TryStreamExt (documented chains on Result streams stop compiling)',
+    'C02-g': '`X >>> -> f <<<` shortcut to `.x(f)`: the operand f is evaluated eagerly, once, outside the closure',
+    'C03-d': 'join_spawn!: thread of a finished unnamed branch joined only at the end (next step starts while it runs)',
+    'C04-f': 'non-try: tail of the deepest branch merged; with two co-deepest branches the others lose their last steps',
+    'C05-f': 'per-step success test elided for steps whose deferred operator "cannot fail" (later instant operators can)',
+    'C06-g': 'block captures of step k+1 evaluated before the failure check of step k',
+    'C07-f': 'spawn decision counts branches with depth >= step: the first lone step of the deepest branch is spawned',
+    'C08-g': 'a step that is only a deferred operator with a block operand runs inline on the caller', 'C08-h': 'join of a finished unnamed branch postponed to the end (non-try)',
+    'C09-g': 'join_async_spawn!: handles awaited one after another (a completing later branch does not wake the future)', 'C09-h': 'try task-spawning macros joined with join! (no short-circuit while a sibling is pending)',
+    'C10-g': 'deferred wrapper opener no longer starts a step (runs although a sibling failed in the previous step)', 'C10-h': 'fold/try_fold: hoisted definitions of the two operands in reverse order',
+    'C11-g': 'hoisted definitions kept in a BTreeMap keyed by generated name (lexicographic order from index 10 on)', 'C11-h': 'fold/try_fold: callback block evaluated before the initial-value block',
+    'C12-g': 'try-async: single-step named branches bound raw (captures see 5 instead of Ok(5))', 'C12-h': 'first capture of a step named with swapped (branch, action) indices',
+    'C13-f': '`and_then` handler accepted by the non-try macros (is_and_then() tests Map)',
+    'C14-g': 'untyped `=>[]` / `<->` followed by an operator starting with `<` read as the start of a type', 'C14-h': '`?|>@ >>>` built as the filter_map wrapper',
+    'C15-g': 'wrapper balance checked only at the end of a step (`a <<< => >>> |> f` reaches a generator panic)', 'C15-h': 'operator between the operands of a multi-operand operator silently dropped',
+    'C16-g': 'lazy branches: a branch that is a `|| e` closure literal is not wrapped (the joiner calls the user closure)', 'C16-h': 'non-macro custom joiner emitted as `(joiner)(..)` (method joiners stop compiling)',
+    'C17-g': 'spawn decision from the total branch count: a lone step is spawned once another branch has finished', 'C17-h': 'handler operand evaluated after the steps',
+    'C18-f': 'map/and_then handler operand evaluated inside the success closure (its panic is swallowed on failure)',
+    'C19-f': 'lazy iterator adaptor left open at a step boundary is collected into a Vec', 'C19-g': 'failure path of sync try macros collects the failed indices into a Vec',
+    'C20-g': 'thread-local "last matched operator" hint tried first (`=>` wins over `=>[]` after a history ending in `=>`)', 'C20-h': 'thread-local registry of let names cleared only on the success path',
 }
 rows = []
 for m in sorted(os.listdir(os.path.join(V, "seeded"))):
